@@ -152,6 +152,10 @@ func (f *File) isValidAlias(alias string) bool {
 }
 
 func (f *File) isDotImport(path string) bool {
+	if def := f.imports[path]; def.name != "" && def.name != "_" {
+		// once a path has been registered, the registered name wins over later hints
+		return def.name == "."
+	}
 	if id, ok := f.hints[path]; ok {
 		return id.name == "." && id.alias
 	}
